@@ -87,6 +87,22 @@ func (p *Prog) describeCreator(v ssa.Value, depth int) []creatorAlt {
 	if isNilConst(v) {
 		return []creatorAlt{{kind: "nil"}}
 	}
+	// a variable assigned on some paths only: alternatives per incoming edge
+	if ph, isPhi := strip(v).(*ssa.Phi); isPhi && depth < 3 {
+		var out []creatorAlt
+		for i, e := range ph.Edges {
+			pb := ph.Block().Preds[i]
+			eg := append(append([]Guard{}, guardsOf(pb)...), edgeGuard(pb, ph.Block())...)
+			for _, alt := range p.describeCreator(e, depth+1) {
+				alt.cond = append(alt.cond, eg...)
+				if alt.where == nil && len(pb.Instrs) > 0 {
+					alt.where = pb.Instrs[len(pb.Instrs)-1]
+				}
+				out = append(out, alt)
+			}
+		}
+		return out
+	}
 	c, idx := callOf(v)
 	if c == nil || idx != 0 {
 		return []creatorAlt{{kind: "unknown"}}
